@@ -60,7 +60,7 @@ class FIBDemux(Device):
         self._fib = val
 
     def put(self, packet):
-        if not self._fib:
+        if self._fib is None:
             raise ValueError('fib of FIBDemux is None')
         self.packets_recevied += 1
         flow_id = packet.flow_id
